@@ -32,7 +32,9 @@ def Ex.resolved (subs : List Ex) : Ex → Bool
   | .bounded w lo hi => match (Ex.bounded w lo hi).matchIdx subs with
       | some i => subs[i]? == some (Ex.bounded w lo hi)
       | none => w.resolved subs
-  | .unary _ w => w.resolved subs
+  | .unary u w => match (Ex.unary u w).matchIdx subs with
+      | some i => subs[i]? == some (Ex.unary u w)
+      | none => w.resolved subs
   | .shift _ _ => false
   | .ptile _ _ _ _ => false
 
@@ -48,7 +50,9 @@ def Ex.openConds (subs : List Ex) : Ex → List Nat
   | .bounded w lo hi => match (Ex.bounded w lo hi).matchIdx subs with
       | some _ => []
       | none => w.openConds subs
-  | .unary _ w => w.openConds subs
+  | .unary u w => match (Ex.unary u w).matchIdx subs with
+      | some _ => []
+      | none => w.openConds subs
   | _ => []
 
 variable (x : Ext)
